@@ -106,13 +106,20 @@ def s1_s2_s3_execute(ctx):
             ws = heap_writes(p, fld)
             ctx.require(len(ws) == 1 and ws[0].value == V(fld), 'C05.S1', 'Transaction.%s is the constructor argument' % fld, ws[0].site if ws else None)
     # update passes its own dt and sets the clock first (shared with C04.S2)
-    ps = summarise(ctx, 'SimulatedBroker.update', policy=props_only)
+    def steps_of_update(caller, callee, depth):
+        # the private steps update is made of (a clock step, a revaluation step, ...) belong to it; the execution of one order stays a call
+        return default_policy(caller, callee, depth) and callee.qn != 'SimulatedBroker._execute_order'
+    ps = summarise(ctx, 'SimulatedBroker.update', policy=steps_of_update)
     for p in normal(ps):
+        flat = list(p.flat_events())
+        first_exec = None
         for e, loops, conds in nested_events(p):
             if e.kind == 'call' and 'SimulatedBroker._execute_order' in e.callee:
+                first_exec = first_exec or e
                 ctx.require(e.args.get('dt') == V('dt'), 'C05.S1', 'update executes orders at its own time argument', e.site, fmt(e.args.get('dt', ZERO)), key='C05.S1|update-dt')
         cw = [w for w in heap_writes(p, 'current_dt') if w.loc == A('self', 'current_dt')]
-        ctx.require(len(cw) == 1 and cw[0].value == V('dt') and p.events[0] is cw[0], 'C05.S1', 'the broker clock equals the update time while orders are filled',
+        before_fill = first_exec is None or (cw and cw[0] in flat and first_exec in flat and flat.index(cw[0]) < flat.index(first_exec))
+        ctx.require(len(cw) == 1 and cw[0].value == V('dt') and before_fill, 'C05.S1', 'the broker clock equals the update time while orders are filled',
                     cw[0].site if cw else None, key='C05.S1|clock')
 
 
